@@ -207,8 +207,7 @@ def sym_scalar(name: str, kind=None, strlen: int = 2, intbound=None):
     """A symbolic JSON scalar; *kind* fixes the kind (0 null, 1 bool, 2 int, 3 float, 4 str) or None for a symbolic choice."""
     k = kind
     if k is None:
-        k = fresh(int, name + "k")
-        assume(0 <= k <= 4)
+        k = sym_choice(name + "k", 5)
     if k == 0:
         return None
     if k == 1:
@@ -227,36 +226,52 @@ def sym_scalar(name: str, kind=None, strlen: int = 2, intbound=None):
     return s
 
 
+def sym_choice(name: str, n: int) -> int:
+    """A symbolic choice in range(n), without an ignored path for out-of-range values (value mod n)."""
+    if n <= 1:
+        return 0
+    v = fresh(int, name)
+    r = v % n
+    for i in range(n - 1):
+        if r == i:
+            return i
+    return n - 1
+
+
 def sym_name(name: str, names=NAMES) -> str:
-    sel = fresh(int, name + "n")
-    assume(0 <= sel < len(names))
-    for i, nm in enumerate(names):
-        if sel == i:
-            return nm
-    return names[-1]
+    return names[sym_choice(name + "n", len(names))]
 
 
-def sym_json(name: str, depth: int, width: int, kind=None, leaf_kind=None, strlen: int = 1, intbound=1000, names=NAMES):
+def sym_json(name: str, depth: int, width: int, kind=None, leaf_kind=None, strlen: int = 1, intbound=1000, names=NAMES, distinct=True):
     """A symbolic JSON value as real Python objects with symbolic leaves.
 
     kind: 0..4 scalar kinds, 5 array, 6 object, None = symbolic choice (containers only while depth > 0).
-    Arrays/objects have a symbolic number (0..width) of children; object member names are drawn from *names*.
+    Arrays/objects have a symbolic number (0..width) of children; object member names are drawn from *names*
+    (pairwise distinct when *distinct*: the j-th member takes the j-th of the names not used so far, rotated by a symbolic choice).
+    leaf_kind fixes the kind of every scalar (e.g. 2 = int: structural selection does not inspect scalars).
     """
     k = kind
     if k is None:
-        k = fresh(int, name + "K")
-        assume(0 <= k <= (6 if depth > 0 else 4))
+        if depth > 0:
+            if leaf_kind is None:
+                k = sym_choice(name + "K", 7)
+            else:
+                c = sym_choice(name + "K", 3)
+                k = leaf_kind if c == 0 else (5 if c == 1 else 6)
+        else:
+            k = sym_choice(name + "K", 5) if leaf_kind is None else leaf_kind
     if k <= 4:
-        return sym_scalar(name, k if leaf_kind is None or kind is not None else leaf_kind, strlen, intbound)
-    n = fresh(int, name + "N")
-    assume(0 <= n <= width)
-    kids = []
-    for j in range(width):
-        if j < n:
-            kids.append(sym_json("%s_%d" % (name, j), depth - 1, width, None if depth - 1 > 0 or leaf_kind is None else leaf_kind, leaf_kind, strlen, intbound, names))
+        return sym_scalar(name, k, strlen, intbound if k != 2 or leaf_kind is None else None)
+    n = sym_choice(name + "N", min(width, len(names) if k == 6 else width) + 1)
+    kids = [sym_json("%s_%d" % (name, j), depth - 1, width, None, leaf_kind, strlen, intbound, names, distinct) for j in range(n)]
     if k == 5:
         return kids
     d = {}
+    avail = list(names)
     for j, kid in enumerate(kids):
-        d[sym_name("%s_%d" % (name, j), names)] = kid
+        if distinct:
+            i = sym_choice("%s_%dn" % (name, j), len(avail))
+            d[avail.pop(i)] = kid
+        else:
+            d[sym_name("%s_%d" % (name, j), names)] = kid
     return d
